@@ -10,13 +10,16 @@ DRV = 'drv_c05'
 
 REGISTRY = {
     'id': 'C05',
-    'text': 'Lean: every generated ion-offset table entry (18 ion types, both modes) equals the offset built from CO, NH3, H2, H2O and the '
-            'H-minus-electron charge carrier (kernel evaluation over the generated tables), and, from the model of mass/adjust_mass, the '
-            'relations b_i + y_(n-i) = M + 2h, a = b - CO, c = b + NH3, x = y + CO - H2, z = y - NH3, immonium, the nine internal series as '
-            'pairs of terminal offsets, the charge step and modification locality are theorems over Q for all sequences and positions; '
-            'the same relations are evaluated on the real fragment() / mass() output against a hand-typed atomic-mass table at 1e-5 Da',
-    'note': 'trusted: Lean kernel; translator; hand-typed NIST/CODATA data; fragment() itself is not modelled here (C04) - its output is '
-            'tied to the model of mass() by correspondence on every fragment sequence and checked directly by the oracle',
+    'text': 'Lean (9 theorems): every generated ion-offset table entry (18 ion types, both modes) equals the offset built from CO, NH3, H2, '
+            'H2O and the H-minus-electron charge carrier (ion_offsets_ok, adjust_tables_ok: kernel evaluation over the generated tables), '
+            'and for the executable model of mass(ion_type=...), exactly over Q, for all sequences, positions, modifications, charges, '
+            'isotope offsets, losses and both modes: b_plus_y (b_i + y_(n-i) = M + 2h), forward_series_offsets (a = b - CO, c = b + NH3), '
+            'backward_series_offsets (x = y + CO - H2, z = y - NH3), internal_offsets (nine series = by + pair of terminal offsets), '
+            'immonium_mass, charge_step (+PROTON_MASS per charge), mod_locality. The same relations are evaluated on the real '
+            'fragment() / mass() output against a hand-typed atomic-mass table at 1e-5 Da',
+    'note': 'trusted: Lean kernel; translator; hand-typed NIST/CODATA data; fragment() itself is not modelled here (C04) - every fragment '
+            'it returns is re-computed by the model of mass() from the fragment\'s own sequence text (correspondence) and checked '
+            'directly by the oracle; which fragment annotations contain a residue (slicing) is C07/C11',
     'technique': 'Lean 4 proof about executable model + generated tables checked by kernel evaluation + differential correspondence '
                  '+ independent reference oracle',
 }
